@@ -3,7 +3,7 @@
    canonicalises to that sequence, so two spellings of the same tokens are parsed identically
    by anything that parses the canonical tokens. *)
 From Coq Require Import List String Bool.
-From RashV Require Import Usage SpellProofs.
+From RashV Require Import Usage SpellProofs Tail TailProofs.
 Import ListNotations.
 
 Theorem C10_every_spelling_canonicalises :
@@ -13,3 +13,9 @@ Proof. exact canon_spell. Qed.
 Theorem C10_equivalent_spellings_same_tokens :
   forall t toks a b, wf_table t -> SpellAll t toks a -> SpellAll t toks b -> canon t a = canon t b.
 Proof. exact same_tokens_same_canon. Qed.
+
+(* stable shape, on the mirror of the code's last stage: every declared option has its key under
+   `options` in the initial variables (false / 0 / null / its default) *)
+Theorem C10_initial_vars_declare_every_option : forall t d,
+  In d t -> has_key (options_of (initial_vars t)) (key_repr d) = true.
+Proof. exact initial_vars_declares_every_option. Qed.
